@@ -68,7 +68,8 @@ def run(ctx, out):
     out.rule = ("source trees with links to files, to directories, to links (chains up to 30), relative and absolute, inside and "
                 "outside the source, dangling (top level and deep), two-link cycles, self links and links to an ancestor; "
                 "-r -L with both drivers; also link OPERANDS (to file / directory, chains, absolute, dangling, cyclic; alone, among "
-                "several sources, onto a new name); destination compared with an independent resolver (os.stat/os.listdir following links) "
+                "several sources, onto a new name); an errno at every readlink of a resolvable tree (exit 0 must still mean: no links); "
+                "destination compared with an independent resolver (os.stat/os.listdir following links) "
                 "and the Gallina walk on the resolved tree; non-trivial = tree contains a link; distinct = (link mix, driver, k)")
     d0 = ctx.work.fresh("c13")
     reps = 2 if quick else 25
@@ -193,6 +194,43 @@ def run(ctx, out):
                         if problem:
                             out.violation("exit 0 but " + problem, rep)
                     shutil.rmtree(d, ignore_errors=True)
+    # a link that cannot be RESOLVED at the moment it is met (readlink / stat of a component fails: EIO, EACCES, ELOOP,
+    # ENAMETOOLONG) is like a dangling one: the run fails; it never falls back to recreating the link
+    sup = core.build_sup()
+    for kind in (("file",), ("chain",), ("file", "dir", "chain")):
+        for driver in ("parfile", "parblock"):
+            k += 1
+            d = os.path.join(d0, "f%d" % k)
+            os.makedirs(d)
+            src, bad = build(rng, d, kind)
+            dst = os.path.join(d, "dst")
+            os.mkdir(dst)
+            argv = [ctx.bins["xcp"], "-r", "-L", "--driver", driver, "-w", "2", src, dst]
+            ref = xcp.run_supervised(sup, argv, d, d, tag="ref")
+            calls = [e for e in ref.trace if e["sys"] in ("readlink", "readlinkat") and e["p1"].startswith(src)]
+            points = list(range(1, len(calls) + 1))
+            if quick:
+                points = points[::max(1, len(points) // 8)]
+            for nth in points:
+                shutil.rmtree(dst, ignore_errors=True)
+                os.mkdir(dst)
+                errno = rng.choice([5, 13, 40, 36])
+                sysn = calls[nth - 1]["sys"]
+                n_same = sum(1 for c in calls[:nth] if c["sys"] == sysn)
+                r = xcp.run_supervised(sup, argv, d, d, rules=[("fail", errno, 0, sysn, n_same, src)], tag="f", timeout_ms=20000)
+                out.case(("deref-fault", kind, driver, nth, errno), nontrivial=True)
+                out.count("readlink_faults")
+                rep = dict(links=kind, driver=driver, argv=argv[1:], fault=(sysn, n_same, errno, calls[nth - 1]["p1"][len(d):]), exit=r.exit,
+                           stderr=r.stderr[-200:])
+                if r.exit == 0:
+                    left = []
+                    for root, dirs, files in os.walk(dst):
+                        for nme in dirs + files:
+                            if os.path.islink(os.path.join(root, nme)):
+                                left.append(os.path.relpath(os.path.join(root, nme), dst))
+                    if left:
+                        out.violation("-L exited 0 and left symbolic links in the destination (%s) after a link could not be read" % left[:3], rep)
+            shutil.rmtree(d, ignore_errors=True)
     if ctx.model_ok:
         models = treecase.model_walk([(False, True, [], [], b[1]) for b in batch])
         for (rep, tenc, bad), m in zip(batch, models):
